@@ -71,7 +71,7 @@ static void run() {
         int kind = *in_range<int>(0, 4); Case c;
         if (kind <= 1) { auto v = *rc::gen::resize(*rc::gen::element(20, 100, 700), rc::gen::container<std::vector<uint8_t>>(rc::gen::weightedOneOf<uint8_t>({{4, rc::gen::inRange<uint8_t>(0x20, 0x7F)}, {2, rc::gen::just<uint8_t>(0x20)}, {3, rc::gen::inRange<uint8_t>(0x80, 0xFF)}, {1, rc::gen::arbitrary<uint8_t>()}}))); std::string s(v.begin(), v.end()); c.set("kind", kind ? "password" : "phrase"); c.set("s", hex(s)); c.set("gen", "random-bytes"); }
         else if (kind == 2) { const lib::LibWords& lw = lib::lib_words(REG->at(*g::lang_index())); RC_PRE(lw.ok); int n = *in_range<int>(0, 24); std::string s; for (int i = 0; i < n; i++) { if (i) s += *rc::gen::element<std::string>(" ", " ", " ", "  ", "\xe3\x80\x80"); s += lw.w[*in_range<int>(0, 2048)]; if (*in_range<int>(0, 6) == 0) s += (char)*rc::gen::inRange<int>(0x80, 0x100); } c.set("kind", "phrase"); c.set("s", hex(s)); c.set("gen", "words+stray-bytes"); }
-        else { auto v = *vf::bytes(32); if (*in_range<int>(0, 4) == 0) { model::Seed ms = g::to_seed(*g::secret19(), *g::birthday(), *in_range<unsigned>(0, 32) & 0x17u); auto im = model::image(ms); memcpy(v.data(), im.data(), 32); if (*in_range<int>(0, 3) == 0) v[*in_range<size_t>(8, 32)] ^= (uint8_t)(1u << *in_range<int>(0, 8)); }
+        else { auto v = *vf::bytes(32); if (*in_range<int>(0, 4) == 0) { model::Seed ms = g::to_seed(*g::secret19(), *g::birthday(), *in_range<unsigned>(0, 32)); c.set("mask", *in_range<unsigned>(0, 8)); /* incl. reserved / not enabled feature bits with a valid check value */ auto im = model::image(ms); memcpy(v.data(), im.data(), 32); if (*in_range<int>(0, 3) == 0) v[*in_range<size_t>(8, 32)] ^= (uint8_t)(1u << *in_range<int>(0, 8)); }
             else if (*in_range<int>(0, 3)) memcpy(v.data(), "POLYSEED", 8); else if (*in_range<int>(0, 2)) { v[29] = 0xFF; v[31] = (uint8_t)(0x70 | (v[31] & 7)); v[9] &= 0x7F; v[28] &= 0x3F; } c.set("kind", "load"); c.set("buf", hex(v)); c.set("gen", "buffer"); }
         c.set("coin", (uint64_t)*g::coin()); c.set("lenient", *in_range<unsigned>(0, 2)); c.set("allocfail", *in_range<unsigned>(0, 2));
         set_current(c); std::string m = oracle(c); if (!m.empty()) VF_FAIL(c, m);
